@@ -150,12 +150,14 @@ class World:
         return np.array(full[self.p2s], dtype="double", order="C")
 
     def nac(self, k, rng, method, perturb):
-        z = 0.8 + 0.2 * (k % 9) + 0.03 * (k // 9)
+        z = 0.8 + 0.15 * (k % 23)
         born = np.array([np.eye(3) * z * s for s in self.species_sign])
-        eps = np.eye(3) * (2.0 + 0.3 * (k % 7))
+        eps = np.eye(3) * (2.0 + 0.25 * (k % 11))
         if perturb:
-            born = born + rng.normal(size=born.shape) * 0.004
-            e = rng.normal(size=(3, 3)) * 0.004
+            # "raw DFPT-like" parameters: not invariant under the crystal symmetry, acoustic sum rule
+            # violated; symmetrisation moves every element by < 0.04 (contents differ by >= 0.15)
+            born = born + rng.uniform(-0.025, 0.025, size=born.shape) + 0.015 * np.eye(3)
+            e = rng.uniform(-0.012, 0.012, size=(3, 3))
             eps = eps + e + e.T
         d = {"born": np.array(born, order="C"), "dielectric": np.array(eps, order="C"),
              "factor": 14.4 + 0.1 * (k % 3)}
@@ -261,9 +263,9 @@ def project_core(ph, s2pp, u2pp, sr_memo, building=None):
         elif nac is None:
             dnac = "old"
         else:
-            scale = max(1.0, float(np.abs(np.asarray(nac["born"])).max()))
-            ok = (np.abs(dmo._born - np.asarray(nac["born"])).max() < 0.05 * scale
-                  and np.abs(dmo._dielectric - np.asarray(nac["dielectric"])).max() < 0.05 * max(1.0, float(np.abs(np.asarray(nac["dielectric"])).max()))
+            # (the matrix holds the symmetrised parameters: within 0.04 of the raw ones, see World.nac)
+            ok = (np.abs(dmo._born - np.asarray(nac["born"])).max() < 0.06
+                  and np.abs(dmo._dielectric - np.asarray(nac["dielectric"])).max() < 0.06
                   and dmo._unit_conversion == nac["factor"])
             dnac = "cur" if ok else "old"
         sr = "none"
@@ -458,6 +460,7 @@ class Driver:
         self.keepalive = []  # objects kept alive so that ids are never reused
         self.margins = []  # observed |real - fresh| at queries
         self.book = ResultBook()
+        self.witness = {}  # id(caller's nac dict) -> dict(obj=second Phonopy object sharing it, ref=frequencies)
         self.mesh_kind = None  # how the mesh the object holds was set up (to set up the fresh one alike)
         self.nac_seen = {}
 
@@ -506,10 +509,43 @@ class Driver:
         if c in ("forces_setter", "forces_getter"):
             return h(np.array(o))
         if c in ("nac_setter", "nac_getter"):
-            return nac_content(o)
+            # the caller's dict: keys, identities of its arrays, contents; and - the same dict being held
+            # by a second object - that object still answers as from what the caller made the dict
+            return h(",".join(sorted(o)), "%d,%d" % (id(o["born"]), id(o["dielectric"])), nac_content(o),
+                     self.witness_state(hd))
         if c in ("dataset_setter", "dataset_getter"):
             return h(ds_disp_content(o) or "")  # the displacements (forces: separate slot)
         return h(o._masses)  # cell objects: the aspect the specification models
+
+    # -- a second Phonopy object (is_symmetry=False, so it uses the parameters as they are) that was given
+    #    the very dict the caller handed to nac_params=: it has to keep answering like a fresh object given
+    #    what the caller made that dict
+    WITNESS_Q = [0.13, 0.21, 0.07]
+
+    def witness_object(self, d):
+        w = self.w
+        ob = quiet(Phonopy, w.unitcell, supercell_matrix=w.S, primitive_matrix=w.P, is_symmetry=False, log_level=0)
+        ob.force_constants = np.array(w.fc0, dtype="double", order="C")
+        ob.nac_params = d
+        return ob
+
+    def witness_reference(self, d):
+        ref = self.witness_object(copy.deepcopy(d))
+        return np.array(quiet(ref.get_frequencies, self.WITNESS_Q))
+
+    def witness_state(self, hd):
+        wit = self.witness.get(id(hd.obj))
+        if wit is None:
+            return "no-witness"
+        if wit.get("refresh"):  # the caller itself has just changed the dict
+            wit["ref"] = self.witness_reference(hd.obj)
+            wit["refresh"] = False
+        try:
+            f = np.array(quiet(wit["obj"].get_frequencies, self.WITNESS_Q))  # (rebuilds from the shared dict)
+            same = f.shape == wit["ref"].shape and float(np.abs(f - wit["ref"]).max()) <= 1e-9
+        except Exception:
+            same = False
+        return "witness-agrees" if same else "witness-differs"
 
     def handle_alias(self, hd):
         slot = self.slot_of(hd.cls)
@@ -556,9 +592,9 @@ class Driver:
     def room(self):
         return len(self.held) < self.max_held
 
-    def add_handle(self, cls, obj):
+    def add_handle(self, cls, obj, belief=None):
         hd = Handle(cls, obj, None)
-        hd.belief = self.handle_content(hd)
+        hd.belief = self.handle_content(hd) if belief is None else belief
         def linked(x):  # one object, or the dataset dict and the displacement array inside it
             if x.obj is obj:
                 return True
@@ -641,10 +677,16 @@ class Driver:
         d = self.w.nac(self.fresh_k(), self.rng, op["m"], self.perturb_nac)
         want = nac_content(d)
         self.keepalive.append(d)
+        keep = bool(op.get("keep")) and self.room()
+        belief = None
+        if keep:
+            # the caller gives the same dict to a second object as well
+            self.witness[id(d)] = dict(obj=self.witness_object(d), ref=self.witness_reference(d), refresh=False)
+            belief = self.handle_content(Handle("nac_setter", d, None))  # what the caller hands in
         self.ph.nac_params = d
         ev["stored"] = nac_content(self.ph._nac_params) == want
-        if op.get("keep") and self.room():
-            self.add_handle("nac_setter", d)
+        if keep:
+            self.add_handle("nac_setter", d, belief)
 
     def do_ClearNAC(self, op, ev):
         self.ph.nac_params = None
@@ -730,7 +772,9 @@ class Driver:
         kw = {}
         if not op.get("refused") and self.fresh_k() % 3 == 0:  # the same forces again, through the argument
             kw["forces"] = [np.array(fa["forces"]) for fa in self.ph._dataset["first_atoms"]]
+        before = h(self.ph._force_constants) if self.ph._force_constants is not None else None
         quiet(self.ph.produce_force_constants, calculate_full_force_constants=(op["lay"] == "full"), **kw)
+        ev["chg"] = before != h(self.ph._force_constants)
         fc = self.ph._force_constants
         lay = "full" if fc.shape[0] == fc.shape[1] else "compact"
         ev["stored"] = lay == op["lay"] and bool(np.isfinite(fc).all())
@@ -896,6 +940,10 @@ class Driver:
 
     TOL = {"frequencies": 1e-8, "dynamical_matrices": 1e-9, "group_velocities": 1e-6, "weights": 1e-12}
     TOL_DEFAULT = 1e-8  # thermal quantities, DOS, displacements (observed: bitwise equal)
+    # A query agrees with the fresh object if the error is below BOUND x tolerance.  (On the unchanged tree
+    # every error observed is exactly 0; the factor 1e-3 keeps the decision far from the tolerance itself -
+    # an error between 1e-3 and 1 of it is a disagreement, decided as such, not a machinery self-check.)
+    BOUND = 1e-3
 
     def do_Query(self, op, ev):
         kind = op["k"]
@@ -939,7 +987,7 @@ class Driver:
                 continue
             d = float(np.abs(a - b).max()) if a.size else 0.0
             worst = max(worst, d / tol)
-            if d > tol:
+            if d > self.BOUND * tol:
                 ok = False
         stale = (kind in CONSUMERS and mesh_fp != fp) or \
             (kind == "rdq" and self.book.rd.get(id(getattr(ph, "_random_displacements", None))) != self.book.epoch(ph, ("fc", "mass")))
@@ -974,6 +1022,8 @@ class Driver:
         elif c in ("nac_setter", "nac_getter"):
             o["born"] *= (1.0 + 0.2 * eps)  # in place, keeps the symmetry of the tensors
             o["dielectric"] = np.array(o["dielectric"]) * (1.0 + 0.1 * eps)
+            if id(o) in self.witness:
+                self.witness[id(o)]["refresh"] = True
         elif c in ("dataset_setter", "dataset_getter"):
             if "first_atoms" in o:
                 fa = o["first_atoms"][0]
